@@ -274,6 +274,147 @@ theorem verifyFromEthTx_ok_iff (K : Bytes → Bytes) (vp : Bytes → Bytes → L
                       have : prm = param := Option.some.inj this
                       subst this; rfl
 
+
+/-! ## The router-independent core -/
+
+/-- The facts of the property statement over the two values a router reads from its header store. -/
+structure CoreFacts (K : Bytes → Bytes) (vp : Bytes → Bytes → List Bytes → VpRes)
+    (bestNumber : Option Nat) (blockRoot : Option Bytes) (blocksToWait height : Nat) (ccmc : Bytes)
+    (proof : Option EthProof) (extra : Bytes) (param : TxParam) : Prop where
+  confirmed : ∃ best, bestNumber = some best ∧ notConfirmed best blocksToWait height = false
+  canonical : ∃ rt p v, blockRoot = some rt ∧ proof = some p ∧ MerkleFacts K vp p rt ccmc (.val v) ∧
+    ∃ w, rlpDecodeString v = some w ∧ List.replicate (32 - w.length) (0 : UInt8) ++ w = K extra
+  message : decodeTxParam extra = some param
+
+/-- The eth router is the core over `GetCurrentHeader` / `GetHeaderByHeight`. -/
+theorem verifyFromEthTx_eq_core (K : Bytes → Bytes) (vp : Bytes → Bytes → List Bytes → VpRes) (root : Hdr H R → Bytes)
+    (s : Store H R) (blocksToWait height : Nat) (ccmc : Bytes) (proof : Option EthProof) (extra : Bytes) :
+    verifyFromEthTx K vp root s blocksToWait height ccmc proof extra =
+      verifyDeposit K vp ((currentHeader s).map fun e => e.hdr.number) ((headerByHeight s height).map fun e => root e.hdr)
+        blocksToWait height ccmc proof extra := by
+  unfold verifyFromEthTx verifyDeposit
+  cases currentHeader s with
+  | none => rfl
+  | some best =>
+    simp only [Option.map_some]
+    cases headerByHeight s height with
+    | none => rfl
+    | some blk => rfl
+
+theorem verifyDeposit_ok_iff (K : Bytes → Bytes) (vp : Bytes → Bytes → List Bytes → VpRes)
+    (bestNumber : Option Nat) (blockRoot : Option Bytes) (blocksToWait height : Nat) (ccmc : Bytes)
+    (proof : Option EthProof) (extra : Bytes) (param : TxParam) :
+    verifyDeposit K vp bestNumber blockRoot blocksToWait height ccmc proof extra = .ok param ↔
+      CoreFacts K vp bestNumber blockRoot blocksToWait height ccmc proof extra param := by
+  -- instantiate the eth theorem with a one-slot store carrying exactly these two values
+  cases bestNumber with
+  | none =>
+    constructor
+    · intro h; cases h
+    · intro h; obtain ⟨_, h1, _⟩ := h.confirmed; cases h1
+  | some best =>
+    unfold verifyDeposit
+    simp only []
+    cases hc : notConfirmed best blocksToWait height with
+    | true =>
+      simp only [if_true]
+      constructor
+      · intro h; cases h
+      · intro h
+        obtain ⟨b, h1, h2⟩ := h.confirmed
+        have : best = b := Option.some.inj h1
+        subst this; rw [hc] at h2; cases h2
+    | false =>
+      simp only [Bool.false_eq_true, if_false]
+      cases blockRoot with
+      | none =>
+        constructor
+        · intro h; cases h
+        · intro h; obtain ⟨_, _, _, h1, _⟩ := h.canonical; cases h1
+      | some rt =>
+        cases proof with
+        | none =>
+          constructor
+          · intro h; cases h
+          · intro h; obtain ⟨_, _, _, _, h1, _⟩ := h.canonical; cases h1
+        | some p =>
+          simp only []
+          have canon : ∀ {param'}, CoreFacts K vp (some best) (some rt) blocksToWait height ccmc (some p) extra param' →
+              ∃ v, MerkleFacts K vp p rt ccmc (.val v) ∧
+                ∃ w, rlpDecodeString v = some w ∧ List.replicate (32 - w.length) (0 : UInt8) ++ w = K extra := by
+            intro param' h
+            obtain ⟨rt', p', v, h0, h1, h2, h3⟩ := h.canonical
+            have e1 : p = p' := Option.some.inj h1
+            have e2 : rt = rt' := Option.some.inj h0
+            subst e1; subst e2
+            exact ⟨v, h2, h3⟩
+          by_cases hlen : p.storageProofs.length ≠ 1
+          · rw [if_pos hlen]
+            constructor
+            · intro h; cases h
+            · intro h
+              obtain ⟨v, h2, _⟩ := canon h
+              obtain ⟨sp, hsp, _⟩ := h2.storage
+              rw [hsp] at hlen; exact absurd rfl hlen
+          · rw [if_neg hlen]
+            cases hm : verifyMerkleProof K vp p rt ccmc with
+            | error e =>
+              constructor
+              · intro h; cases h
+              · intro h
+                obtain ⟨v, h2, _⟩ := canon h
+                rw [(verifyMerkleProof_ok_iff K vp p rt ccmc (.val v)).2 h2] at hm; cases hm
+            | ok res =>
+              have hfacts := (verifyMerkleProof_ok_iff K vp p rt ccmc res).1 hm
+              have resval : ∀ {param'}, CoreFacts K vp (some best) (some rt) blocksToWait height ccmc (some p) extra param' →
+                  ∃ v, res = .val v ∧ ∃ w, rlpDecodeString v = some w ∧
+                    List.replicate (32 - w.length) (0 : UInt8) ++ w = K extra := by
+                intro param' h
+                obtain ⟨v, h2, h3⟩ := canon h
+                have := (verifyMerkleProof_ok_iff K vp p rt ccmc (.val v)).2 h2
+                rw [hm] at this
+                have : res = .val v := by cases this; rfl
+                exact ⟨v, this, h3⟩
+              cases res with
+              | err =>
+                constructor
+                · intro h; cases h
+                · intro h; obtain ⟨v, hv, _⟩ := resval h; cases hv
+              | absent =>
+                constructor
+                · intro h; cases h
+                · intro h; obtain ⟨v, hv, _⟩ := resval h; cases hv
+              | val v =>
+                simp only []
+                cases hcp : checkProofResult v (K extra) with
+                | false =>
+                  simp only [Bool.not_false, if_true]
+                  constructor
+                  · intro h; cases h
+                  · intro h
+                    obtain ⟨v', hv, h3⟩ := resval h
+                    have : v = v' := by cases hv; rfl
+                    subst this
+                    rw [(checkProofResult_iff v (K extra)).2 h3] at hcp; cases hcp
+                | true =>
+                  simp only [Bool.not_true, Bool.false_eq_true, if_false]
+                  have h3 := (checkProofResult_iff v (K extra)).1 hcp
+                  cases hd : decodeTxParam extra with
+                  | none =>
+                    constructor
+                    · intro h; cases h
+                    · intro h; have := h.message; rw [hd] at this; cases this
+                  | some prm =>
+                    constructor
+                    · intro h
+                      have : prm = param := by cases h; rfl
+                      subst this
+                      exact ⟨⟨best, rfl, hc⟩, ⟨rt, p, v, rfl, rfl, hfacts, h3⟩, hd⟩
+                    · intro h
+                      have := h.message; rw [hd] at this
+                      have : prm = param := Option.some.inj this
+                      subst this; rfl
+
 /-! ## Confirmation arithmetic -/
 
 theorem notConfirmed_false_iff (bestNumber blocksToWait height : Nat) :
